@@ -78,7 +78,9 @@ def run_check(prop, tier="quick", root="/repo", overlay=None, quiet=False):
     mod.run(ctx, rep, tier)
     for clause, floor in getattr(mod, "FLOOR", {}).items():
         n = rep.count(clause)
-        if n < floor:
+        # a violation found in the clause explains a reduced count (a rule that reports the broken construct returns early):
+        # the violation is the verdict, the floor guards only against rules that silently match nothing
+        if n < floor and not any(i.clause == clause and i.status == "violation" for i in rep.items):
             raise AnchorError(f"{prop}-{clause}: {n} rule instances found, confirmed floor is {floor} "
                               f"(an anchor moved or the rule no longer recognises the construct)")
     return ctx, rep, mod
@@ -123,6 +125,8 @@ def main(argv=None):
                 extra = mod.thorough(ctx, rep, seed) or {}
             from .audit.runner import audit
             extra.update(audit(prop, a.root, seed=seed))
+            from .audit.mutants import mutation_audit
+            extra.update(mutation_audit(prop, a.root, seed=seed, per_function=5, total_cap=96))
     except AnchorError as e:
         print(f"ANALYSIS-ERROR property={prop} {e}")
         if not a.no_evidence:
@@ -162,6 +166,11 @@ def main(argv=None):
             print(f"    checker defect: breaking variant not flagged: {m}")
         for m in au["equivalent"]["false_alarms"]:
             print(f"    checker defect: equivalence variant flagged: {m['name']} {m['new'] or m['error']}")
+    mu = extra.get("mutation_audit") if a.tier == "thorough" else None
+    if mu:
+        print(f"[{prop}] generic mutants of the {mu['functions']} functions the rules report on: {mu['noticed']}/{mu['mutants']} noticed; "
+              f"no mutant noticed in {len(mu['functions_where_no_mutant_is_noticed'])} function(s) (listed in the evidence; this measures the "
+              "checker, not the property)")
     rc = 0
     if a.replay:
         with open(a.replay) as fh:
